@@ -176,6 +176,9 @@ class Flow:
             return self._alts(n, e.args[1], depth + 1, seen, boolops)
         if isinstance(e, ast.NamedExpr):
             return self._alts(n, e.value, depth + 1, seen, boolops)
+        if isinstance(e, ast.Await) and isinstance(e.value, (ast.Name, ast.IfExp)):
+            # awaiting a value held in a local: the value that flows on is the awaited result of what the local holds
+            return self._alts(n, e.value, depth + 1, seen, boolops)
         if isinstance(e, ast.Name) and isinstance(e.ctx, ast.Load) and e.id in self._defs:
             ds = self.defs_at(n, e.id)
             # a use inside the defining node (x = f(x)) sees the definitions reaching the node, which is what IN holds
@@ -271,6 +274,11 @@ class Flow:
                     s.lazy = False
                     s.via = 'gather'
                 return inner
+            if fn == 'map' and len(e.args) == 2 and not e.keywords:
+                # map(F, X): one F(x) per element of X, in order
+                tgt = ast.copy_location(ast.Name(id='_elt', ctx=ast.Store()), e)
+                call = ast.copy_location(ast.Call(func=e.args[0], args=[ast.copy_location(ast.Name(id='_elt', ctx=ast.Load()), e)], keywords=[]), e)
+                return [SeqSrc('iter', iter=e.args[1], target=tgt, elt=[Alt(call, [], n)], total=True, guards=a.guards, node=n, lazy=True, comp=e)]
             if fn in ('filter',) and len(e.args) == 2:
                 inner = self.seq(n, e.args[1], depth + 1)
                 for s in inner:
